@@ -140,7 +140,7 @@ def e2_semantics(ck, mod, tier, parsed):
                 smt.prove(ck, '%s path %d: sum of bins = total accepted weight' % (tag, pi), pc + kdef, [tot != acc], TO, probe=kdef + [z3.Real('free') != acc])
             if nb == 2 and LEN == 1: ck.sample({'unit': tag, 'paths': len(res), 'bin0_expr': str(res[-1][1][0][0])[:200], 'pc': [str(c)[:120] for c in res[-1][0].pc[:4]]})
     # Normalize: ratios unchanged and integral one
-    mx = z3.Real('mx')
+    mx = z3.Real('mx'); norm_found = []
     for nb in (2, 3) if tier == 'quick' else (1, 2, 3, 4, 5):
         y0 = [z3.Real('y%d' % i) for i in range(nb)]
         def body(it):
@@ -153,9 +153,13 @@ def e2_semantics(ck, mod, tier, parsed):
             absum = sum([z3.If(y >= 0, y, -y) for y in y0[1:]], z3.If(y0[0] >= 0, y0[0], -y0[0]))
             nz = [absum != 0]
             for j in range(nb):
-                smt.prove(ck, 'Normalize(n=%d) path %d: y[%d]*area = old y[%d] (ratios unchanged)' % (nb, pi, j, j), pc + nz, [yv[j] * absum * st != y0[j]], TO, probe=nz + [z3.Real('free') * absum != y0[j]])
+                s_, mdl = smt.prove(ck, 'Normalize(n=%d) path %d: y[%d]*area = old y[%d] (ratios unchanged)' % (nb, pi, j, j), pc + nz, [yv[j] * absum * st != y0[j]], TO, probe=nz + [z3.Real('free') * absum != y0[j]])
+                if s_ == 'sat': norm_found.append((nb, mdl))
             ab2 = sum([z3.If(y >= 0, y, -y) for y in yv[1:]], z3.If(yv[0] >= 0, yv[0], -yv[0]))
-            smt.prove(ck, 'Normalize(n=%d) path %d: sum|y|*step = 1' % (nb, pi), pc + nz, [ab2 * st != 1], TO, probe=nz + [z3.Real('free') != 1])
+            s_, mdl = smt.prove(ck, 'Normalize(n=%d) path %d: sum|y|*step = 1' % (nb, pi), pc + nz, [ab2 * st != 1], TO, probe=nz + [z3.Real('free') != 1])
+            if s_ == 'sat': norm_found.append((nb, mdl))
+    for nb, mdl in norm_found[:1]: found.append(('HistogramNew::Normalize', nb, 'normalize', mdl, None, None))
+    ck.extra['normalize_refuted'] = len(norm_found)
     return found
 
 def e2_legacy(ck, mod, tier, parsed):
@@ -238,6 +242,12 @@ def check_c13(ck, tier, replay=None):
         rep = common.write_replay('C13', nm, {'README': 'ASan replay: ./check C13 --replay <dir>\n'}, meta)
         ok, why = replay_memory(meta)
         ck.violation('C13 HistogramNew::Process out-of-bounds', 'HistogramNew::Process writes outside the bin buffer (%s); %s' % (nm, why), rep, reproduced=ok)
+    n_norm = sum(1 for t in f2 if t[2] == 'normalize')
+    for tag, nb, periodic, mdl, vs, ws in [t for t in f2 if t[2] == 'normalize']:
+        meta = {'kind': 'normalize', 'nb': nb, 'model': mdl}
+        rep = common.write_replay('C13', tag + str(mdl), {}, meta); ok, why = replay_normalize(meta)
+        ck.violation('C13 HistogramNew::Normalize', 'HistogramNew::Normalize: integral != 1 or bin ratios changed; %s' % why, rep, reproduced=ok)
+    f2 = [t for t in f2 if t[2] != 'normalize']
     for tag, nb, periodic, mdl, vs, ws in f2[:3]:
         meta = {'kind': 'bins', 'nb': nb, 'periodic': periodic, 'model': mdl}
         rep = common.write_replay('C13', tag + str(mdl), {}, meta); ok, why = replay_bins(meta)
@@ -287,6 +297,20 @@ def replay_bins(meta):
         bins = got
     return False, 'bins as expected on the model inputs'
 
+def replay_normalize(meta):
+    """Real HistogramNew: Initialize(mn, mx, nb), bins from the model, Normalize(); integral must be 1 and ratios unchanged."""
+    mdl = meta.get('model') or {}; nb = meta['nb']
+    mn = _f(mdl.get('mn'), 0.0); mx = _f(mdl.get('mx'), mn + 1.0); y0 = [_f(mdl.get('y%d' % i), 0.0) for i in range(nb)]
+    binp = common.native_build([common.harness_path(HARNESS)], 'C13_native_norm', extra=['-I' + common.REPO], defs=['VERIF_NATIVE'], libs=[])
+    line = 'norm %s %s %d 0 %s %s %s\n' % (float(mn).hex(), float(mx).hex(), nb, float(0).hex(), float(1).hex(), ' '.join(float(y).hex() for y in y0))
+    rc, so, se = common.run_native(binp, stdin_text=line)
+    o = [float.fromhex(t) for t in so.split()]
+    if len(o) != nb + 1: return True, 'native run failed: %s %s' % (so[:100], se[:200])
+    step, y = o[0], o[1:]; area = sum(abs(v) for v in y0) * step
+    integ = sum(abs(v) for v in y) * step
+    bad = abs(integ - 1.0) > 1e-9 or any(abs(y[i] * area - y0[i]) > 1e-9 * max(1, abs(y0[i])) for i in range(nb))
+    return bad, 'Initialize(%r,%r,%d), bins %s: after Normalize bins %s, integral %r' % (mn, mx, nb, y0, y, integ)
+
 def replay_legacy(meta):
     mdl = meta['model'] or {}; n = meta['nvals']
     if meta.get('clause', '').startswith('Normalize'):
@@ -308,7 +332,7 @@ def replay_legacy(meta):
 
 def do_replay(path):
     meta = json.load(open(os.path.join(path, 'input.json')))
-    ok, why = {'memory': replay_memory, 'bins': replay_bins, 'legacy': replay_legacy}[meta['kind']](meta)
+    ok, why = {'memory': replay_memory, 'bins': replay_bins, 'legacy': replay_legacy, 'normalize': replay_normalize}[meta['kind']](meta)
     print('replay: %s (%s)' % ('reproduced' if ok else 'not reproduced', why))
     if ok: print('VIOLATION property=C13 replay=%s' % path); return 1
     return 0
